@@ -36,6 +36,9 @@ def families(tier, seed):
             out.append(dict(tag=f"U33-update_var-on-hierarchy-derived-out-of-place/{which}", features=dict(derived_hierarchy=True, which=which),
                             kind="derived_hierarchy", which=which, vec=vec))
     out.append(dict(tag="U32-nano-scale-overrides-through-a-yaml-round-trip", features=dict(tiny_roundtrip=True), kind="tiny_roundtrip", vec=False))
+    for how in ("edge attributes", "update_var"):
+        for vec in (False, True):
+            out.append(dict(tag=f"U34-nano-scale-edge-weights-on-a-twelve-node-ring/{how}", features=dict(tiny_edge_ring=True, how=how), kind="tiny_edge_ring", how=how, vec=vec))
     for vec in (False, True):
         out.append(dict(tag="U29-to_yaml-between-two-compilations", features=dict(yaml_between=True), kind="yaml_between", vec=vec))
     for how in ("update_var", "node_values"):
@@ -267,7 +270,45 @@ def shared_subcircuit_case(c):
     return dict(status="violated" if fails else "ok", fails=fails)
 
 
+def tiny_edge_ring_case(c):
+    """Twelve nodes sharing one NodeTemplate, one edge i-1 -> i each, per-edge weights of a few 1e-9 that all differ (given as edge attributes
+    or overridden with update_var(edge_vars=...)): every edge delivers its OWN weight — dv_i = (w_i*v_(i-1) - g*v_i)/c_m at the initial state."""
+    import numpy as np
+    from pyrates import OperatorTemplate, NodeTemplate, CircuitTemplate
+    n, g, cm = 12, 5e-9, 1e-10
+    v0 = [-0.06 + 0.001 * i for i in range(n)]
+    w = [(1.0 + 0.25 * i) * 1e-9 for i in range(n)]
+    op = OperatorTemplate(name="lk", path=None, equations=["d/dt * v = (i_syn - g_l*v) / c_m"],
+                          variables={"v": "output(0.0)", "g_l": g, "c_m": cm, "i_syn": "input(0.0)"})
+    node = NodeTemplate(name="lkn", path=None, operators=[op])
+    given = c["how"] == "edge attributes"
+    net = CircuitTemplate(name="ring12", path=None, nodes={f"n{i}": node for i in range(n)},
+                          edges=[(f"n{(i - 1) % n}/lk/v", f"n{i}/lk/i_syn", None, {"weight": w[i] if given else 2e-9}) for i in range(n)])
+    net.update_var(node_vars={f"n{i}/lk/v": v0[i] for i in range(n)})
+    if not given:
+        net.update_var(edge_vars=[(f"n{(i - 1) % n}/lk/v", f"n{i}/lk/i_syn", {"weight": w[i]}) for i in range(n)])
+    f, a, names, m = net.get_run_func("vf", step_size=1e-4, vectorize=c["vec"], verbose=False, in_place=False, clear=True, float_precision="float64",
+                                      file_name="ring12_mod")
+    y = np.asarray(a[1], dtype=float).copy()
+    dy = np.asarray(f(*a), dtype=float).copy()
+    from rtc import oracle
+    pos = {i: oracle.position_of(net, m, f"n{i}/lk/v") for i in range(n)} if hasattr(oracle, "position_of") else None
+    fails = []
+    if pos is None or any(p_ is None for p_ in pos.values()):
+        # layout by value: the initial states are pairwise different
+        pos = {i: int(np.argmin(np.abs(y - v0[i]))) for i in range(n)}
+    got = [float(dy[pos[i]]) for i in range(n)]
+    want = [(w[i] * v0[(i - 1) % n] - g * v0[i]) / cm for i in range(n)]
+    if not np.allclose(got, want, rtol=1e-9, atol=1e-12):
+        bad = int(np.argmax(np.abs(np.asarray(got) - np.asarray(want))))
+        fails.append(dict(clause=f"weights given by {c['how']}: every edge of the ring delivers its own (nano-scale) weight", var=f"n{bad}/lk/v",
+                          observed=got[bad], expected=want[bad]))
+    return dict(status="violated" if fails else "ok", fails=fails)
+
+
 def case_fn(c):
+    if c["kind"] == "tiny_edge_ring":
+        return tiny_edge_ring_case(c)
     if c["kind"] == "derived_hierarchy":
         return derived_hierarchy_case(c)
     if c["kind"] == "tiny_roundtrip":
